@@ -8,3 +8,5 @@
     }
     open spec fn tuning_view(&self) -> bool { self.tuning }
     open spec fn last_steps_view(&self) -> u64 { self.step_size.last_n_steps }
+    open spec fn init_pre(&self) -> bool { gs_init_pre(*self) }
+    open spec fn init_post(&self, post: &Self, h0: &Self::Hamiltonian, h1: &Self::Hamiltonian, r: Result<(), NutsError>) -> bool { gs_init_post(*self, *post, *h0, *h1, r) }
